@@ -10,7 +10,7 @@
 (*   - every behaviour of the implementation-shaped model SocketImpl.      *)
 (* Clause names are mapped to the listed properties in checks/clauses.py.  *)
 (***************************************************************************)
-EXTENDS Naturals, Integers, Sequences, FiniteSets, FiniteSetsExt, TLC
+EXTENDS Naturals, Integers, Sequences, FiniteSets, FiniteSetsExt, TLC, TLCExt
 
 QMAX == 10                       \* C16: at most ten unexpired messages held
 CLIENT == 176                    \* 0xB0
@@ -18,7 +18,10 @@ CONSOLE == 128                   \* 0x80
 CONSOLE_EXT == 144               \* 0x90
 EXT_TYPE == 31                   \* 0x1F
 
-Same(a, b) == ToString(a) = ToString(b)    \* equality that never raises a TLC type error
+\* Equality that never raises a TLC type error and does not depend on how a record was built:
+\* fingerprints are computed on the normalised value (ToString is not: a record built by an
+\* operator prints its fields in construction order, a JSON-deserialised one in sorted order).
+Same(a, b) == TLCFP(a) = TLCFP(b)
 
 S0 == [now |-> 0, n |-> 0, open |-> "no",
        acc |-> <<>>,             \* submitted messages in call order
@@ -33,13 +36,32 @@ S0 == [now |-> 0, n |-> 0, open |-> "no",
 V(s, clause) == [s EXCEPT !.viol = IF Len(@) < 8 THEN Append(@, <<clause, s.n>>) ELSE @]
 
 Idx(s) == 1..Len(s.acc)
-Counted(e)   == e.st = "ok" \/ (e.st = "calling" /\ e.exp \in {"accept", "any"})
+Counted(e)   == e.st \in {"ok", "calling"}
 Alive(s, e)  == Counted(e) /\ e.enc = "ok" /\ ~e.stale /\ s.now < e.expiry
 NeedsTx(e)   == e.att = 0 \/ (e.failed /\ e.att < 1 + e.retries)
 HeldIdx(s)   == {i \in Idx(s) : Alive(s, s.acc[i]) /\ NeedsTx(s.acc[i])}
 Conns(s)     == 1..Len(s.conn)
 OpenConns(s) == {c \in Conns(s) : s.conn[c] \in {"up", "half"}}
 UpConns(s)   == {c \in Conns(s) : s.conn[c] = "up"}
+
+\* Messages certainly held (accepted, alive, still to be transmitted) and calls whose outcome is
+\* still open.  A call started as a task takes effect at some moment between its `call` and its
+\* `ret` event; each pending call therefore records the range [lo, hi] of the number of held
+\* messages, and whether the client was open / not open, over that interval (Track, applied after
+\* every event).  C16 fixes the outcome only when the whole interval agrees.
+DefHeld(s)  == Cardinality({i \in HeldIdx(s) : s.acc[i].st = "ok"})
+Calling(s)  == {i \in Idx(s) : s.acc[i].st = "calling"}
+
+Track(s) ==
+  IF Calling(s) = {} THEN s
+  ELSE LET d  == DefHeld(s)
+           nc == Cardinality(Calling(s))
+       IN [s EXCEPT !.acc = [i \in Idx(s) |->
+             IF s.acc[i].st # "calling" THEN s.acc[i]
+             ELSE [s.acc[i] EXCEPT !.lo = IF s.bp THEN 0 ELSE IF d < @ THEN d ELSE @,
+                                   !.hi = IF s.bp THEN 99 ELSE IF d + nc - 1 > @ THEN d + nc - 1 ELSE @,
+                                   !.oy = @ \/ s.open \in {"yes", "closing"},
+                                   !.on = @ \/ s.open \in {"no", "closing"}]]]
 
 -----------------------------------------------------------------------------
 (* public calls *)
@@ -49,33 +71,29 @@ CallClose(s) == [s EXCEPT !.open = IF @ = "yes" THEN "closing" ELSE @]
 RetClose(s)  == [s EXCEPT !.open = "no",
                           !.acc = [i \in Idx(s) |-> [s.acc[i] EXCEPT !.stale = TRUE]]]
 
-\* C16: the outcome of a send is determined at the call: not open => NotOpenError; ten unexpired
-\* messages held => QueueOverflowError; else accepted.  (While close() is in progress, or while an
-\* unencodable message may occupy a slot, the statements fix no outcome: "any".)
 CallSend(s, ev) ==
-  LET exp == IF s.open = "no" THEN "notopen"
-             ELSE IF s.open = "closing" \/ s.bp THEN "any"
-             ELSE IF Cardinality(HeldIdx(s)) >= QMAX THEN "overflow" ELSE "accept"
-      ent == [id |-> ev.id, desc |-> ev.desc, retries |-> ev.retries, expiry |-> s.now + ev.life,
-              st |-> "calling", exp |-> exp, att |-> 0, failed |-> FALSE, tx |-> 0,
-              enc |-> ev.enc, stale |-> FALSE]
+  LET ent == [id |-> ev.id, desc |-> ev.desc, retries |-> ev.retries, expiry |-> s.now + ev.life,
+              st |-> "calling", lo |-> 99, hi |-> 0, oy |-> FALSE, on |-> FALSE,
+              att |-> 0, failed |-> FALSE, tx |-> 0, enc |-> ev.enc, stale |-> FALSE]
   IN [s EXCEPT !.acc = Append(@, ent), !.bp = @ \/ ev.enc # "ok"]
 
+\* C16: not open => NotOpenError; ten unexpired messages held => QueueOverflowError, nothing
+\* held for the rejected call; otherwise accepted.
 RetSend(s, ev) ==
   LET is == {i \in Idx(s) : s.acc[i].id = ev.id /\ s.acc[i].st = "calling"}
   IN IF is = {} THEN s
      ELSE LET i == Min(is)
               e == s.acc[i]
           IN CASE ev.res = "ok" ->
-                    LET s1 == IF e.exp = "overflow" THEN V(s, "OverflowNotRaised")
-                              ELSE IF e.exp = "notopen" THEN V(s, "NotOpenNotRaised") ELSE s
+                    LET s1 == IF ~e.oy THEN V(s, "NotOpenNotRaised")
+                              ELSE IF e.lo >= QMAX THEN V(s, "OverflowNotRaised") ELSE s
                     IN [s1 EXCEPT !.acc[i].st = "ok"]
                [] ev.res = "QueueOverflowError" ->
-                    LET s1 == IF e.exp \in {"accept", "notopen"} THEN V(s, "SpuriousOverflow") ELSE s
+                    LET s1 == IF e.hi < QMAX \/ ~e.oy THEN V(s, "SpuriousOverflow") ELSE s
                         s2 == IF e.att > 0 THEN V(s1, "RejectedButSent") ELSE s1
                     IN [s2 EXCEPT !.acc[i].st = "rej"]
                [] ev.res = "NotOpenError" ->
-                    LET s1 == IF e.exp \in {"accept", "overflow"} THEN V(s, "SpuriousNotOpen") ELSE s
+                    LET s1 == IF ~e.on THEN V(s, "SpuriousNotOpen") ELSE s
                         s2 == IF e.att > 0 THEN V(s1, "RejectedButSent") ELSE s1
                     IN [s2 EXCEPT !.acc[i].st = "rej"]
                [] OTHER ->     \* the call raised something else: nothing was accepted
@@ -190,7 +208,7 @@ Residual(s, ev) ==
 Notify(s, ev) == IF ev.connected /\ s.open = "no" THEN V(s, "NotifyAfterClose") ELSE s
 
 -----------------------------------------------------------------------------
-Step(s0, ev) ==
+Step1(s0, ev) ==
   LET s == [s0 EXCEPT !.now = ev.t, !.n = @ + 1]
       k == ev.e
   IN CASE k = "callsend"  -> CallSend(s, ev)
@@ -219,4 +237,6 @@ Step(s0, ev) ==
        [] k = "block"     -> [s EXCEPT !.blocked = @ + 1]
        [] k = "release"   -> [s EXCEPT !.blocked = IF @ > 0 THEN @ - 1 ELSE 0]
        [] OTHER           -> s
+
+Step(s0, ev) == Track(Step1(s0, ev))
 =============================================================================
